@@ -1356,3 +1356,56 @@ func (g *G) RootType() *ty {
 }
 
 func (g *G) ExprOf(w *ty, d int) *Node { return g.Expr(w, d) }
+
+// EarlyCheckProbe builds a small for-expression whose `if` clause is well-typed for
+// every element but contains a conditional whose branch types unify only for the real
+// type of the key variable:   X == (c1 ? (false ? k : b) : N)   with k a string key.
+// (With a placeholder of unknown type for k the inner conditional is a bool, which does
+// not unify with the number N.)  The language defines the result: the inner conditional
+// is the string "true"/"false", the outer one a string, and a number never equals a string.
+func (g *G) EarlyCheckProbe() *Node {
+	keyVar := pickS(g, []string{"k", "idx", "each", "e-1"}, "probekey")
+	valVar := pickS(g, []string{"v", "i", "item", "x"}, "probeval")
+	coll := &Node{K: KObj}
+	used := map[string]bool{}
+	for i := g.int(1, 3, "proben"); i > 0; i-- {
+		nm := pickS(g, attrNames, "probeattr")
+		if used[nm] {
+			continue
+		}
+		used[nm] = true
+		coll.Items = append(coll.Items, g.item(nm, g.numLiteral()))
+	}
+	var falsy *Node
+	if g.bool("probefalsy") {
+		falsy = &Node{K: KBool, B: false}
+	} else {
+		falsy = &Node{K: KBin, Op: "<", A: numLit("2"), B2: numLit("1")}
+	}
+	inner := &Node{K: KCond, A: falsy, B2: &Node{K: KVar, Name: keyVar}, C: &Node{K: KBool, B: g.bool("probeb")}}
+	var c1 *Node
+	switch g.int(0, 2, "probec1") {
+	case 0:
+		c1 = &Node{K: KBool, B: true}
+	case 1:
+		c1 = &Node{K: KBool, B: false}
+	default:
+		c1 = &Node{K: KBin, Op: ">=", A: &Node{K: KVar, Name: valVar}, B2: g.numLiteral()}
+	}
+	outer := &Node{K: KCond, A: c1, B2: inner, C: g.numLiteral()}
+	if g.bool("probeswap") {
+		outer = &Node{K: KCond, A: c1, B2: g.numLiteral(), C: inner}
+	}
+	op := "=="
+	if g.bool("probeop") {
+		op = "!="
+	}
+	var val *Node
+	if g.bool("probevalexpr") {
+		val = &Node{K: KBin, Op: "+", A: &Node{K: KVar, Name: valVar}, B2: g.numLiteral()}
+	} else {
+		val = &Node{K: KTmpl, Parts: []*Part{{K: PInterp, E: &Node{K: KVar, Name: keyVar}}, {K: PLit, S: "="}, {K: PInterp, E: &Node{K: KVar, Name: valVar}}}}
+	}
+	return &Node{K: KFor, KeyVar: keyVar, ValVar: valVar, A: coll, B2: val,
+		C: &Node{K: KBin, Op: op, A: g.numLiteral(), B2: outer}}
+}
